@@ -351,7 +351,7 @@ func childMain(jobPath string) int {
 // applyDirFault puts the tombstone store into an unreadable condition and
 // returns the function that restores exactly what was there before.
 func applyDirFault(dir, fault string) (func() error, error) {
-	if fault != FTombCorrupt && fault != FTombDir {
+	if !isDirFault(fault) {
 		return nil, nil
 	}
 	_, tp := statePaths(dir)
@@ -369,7 +369,22 @@ func applyDirFault(dir, fault string) (func() error, error) {
 		}
 		return nil
 	}
+	if (fault == FTombEmpty || fault == FTombTorn) && !(had && len(orig) > 0) {
+		// nothing was ever stored: there is no record to lose, and whether a
+		// never-written store counts as "unreadable" is not the statement's
+		// business. The parent sees Before.Tomb == "absent" and does not count
+		// the fault as reached.
+		return nil, nil
+	}
 	switch fault {
+	case FTombEmpty:
+		if err := os.WriteFile(tp, nil, 0o600); err != nil {
+			return nil, err
+		}
+	case FTombTorn:
+		if err := os.WriteFile(tp, orig[:len(orig)-1], 0o600); err != nil {
+			return nil, err
+		}
 	case FTombCorrupt:
 		var garbage []byte
 		if had && len(orig) > 8 {
